@@ -41,8 +41,9 @@ TOL_STEP = 5e-7        # * max(1, cond(M)): next state
 TOL_SENS = 1e-11       # sensordata (pos/vel stages); acc-stage sensors use 10*TOL_SOLVE*cond
 
 ANALYTIC = {'plane', 'sphere', 'capsule'}
-# capsule-capsule: math.closest_segment_to_segment_points divides by (denom + 1e-6): closest points (hence pos/normal)
-# are only accurate to ~1e-5 relative; geometry is compared at TOL_CAPCAP and downstream comparisons are skipped.
+# capsule-capsule / sphere-capsule: math.closest_segment_to_segment_points and math.closest_segment_point divide by
+# (denom + 1e-6): closest points (hence pos/normal) are only accurate to ~1e-5 relative; geometry is compared at
+# TOL_CAPCAP and downstream quantities at TOL_LOOSE (candidate finding F18).
 TOL_CAPCAP = 1e-3
 TOL_LOOSE = 5e-2       # constraints/solver/step of states with an active capsule-capsule contact (not calibrated: bounds the
                        # propagated 1e-6..1e-5 closest-point error; feature-specific mutants change these quantities by O(0.1-1))
@@ -162,8 +163,12 @@ def match_contacts(tm, td, dxi, info):
     return None, 'boundary'
   if xdist.size and np.any(np.abs(xdist - xinc) < 1e-9):
     return None, 'boundary'
+  # candidate finding F23: filterBodyPair() of the C engine skips pairs of dof-less bodies (world geom vs geom of a mocap
+  # body); MJX has no such rule and emits those contacts (their constraint rows have a zero Jacobian): ignored here
+  dofless = info['body_dofless']
+  gb = np.asarray(tm.geom_bodyid)
   cact = [i for i in range(con.size) if not con['exclude'][i]]
-  xact = [i for i in range(xdist.size) if xdist[i] < xinc[i]]
+  xact = [i for i in range(xdist.size) if xdist[i] < xinc[i] and not (dofless[gb[xgeom[i][0]]] and dofless[gb[xgeom[i][1]]])]
   byc = collections.defaultdict(list)
   byx = collections.defaultdict(list)
   for i in cact:
@@ -197,6 +202,7 @@ def compare_contacts(tm, td, dxi, pairs, worst):
   con = td.contact
   cx = dxi._impl.contact
   status = 'ok'
+  hard = None
   for i, j, analytic, kinds in pairs:
     cf = con['frame'][i].reshape(3, 3)
     xf = np.asarray(cx.frame[j]).reshape(3, 3)
@@ -213,12 +219,14 @@ def compare_contacts(tm, td, dxi, pairs, worst):
                 nrel(con['solreffriction'][i], np.asarray(cx.solreffriction[j])),
                 0.0 if int(con['dim'][i]) == int(cx.dim[j]) else float('inf'))
     geo = max(e_dist, e_pos, e_nrm)
-    if kinds == 'capsule':
-      worst.add('contact.geom.capsule-capsule', geo)
+    if kinds in ('capsule', 'capsule-sphere'):
+      worst.add('contact.geom.' + ('capsule-capsule' if kinds == 'capsule' else kinds), geo)
       if geo > TOL_CAPCAP:
-        raise Violation('capsule-capsule contact geoms %s: dist C=%.17g MJX=%.17g, pos err %.3g, normal err %.3g' % (
-            con['geom'][i].tolist(), con['dist'][i], float(cx.dist[j]), e_pos, e_nrm), bucket='contact-geometry')
-      if geo > TOL_CONTACT or e_frame > TOL_CONTACT:
+        raise Violation('%s contact geoms %s: dist C=%.17g MJX=%.17g, pos err %.3g, normal err %.3g' % (
+            kinds, con['geom'][i].tolist(), con['dist'][i], float(cx.dist[j]), e_pos, e_nrm), bucket='contact-geometry')
+      if e_frame > TOL_CAPCAP:
+        hard = 'deviation:tangent-frame'       # tangent axes chosen differently: rows are not comparable at all
+      elif (geo > TOL_CONTACT or e_frame > TOL_CONTACT) and status == 'ok':
         status = 'deviation:capsule-capsule-eps'
     elif analytic:
       worst.add('contact.geom', geo)
@@ -227,11 +235,11 @@ def compare_contacts(tm, td, dxi, pairs, worst):
         raise Violation('contact %s geoms %s: dist C=%.17g MJX=%.17g, pos err %.3g, normal err %.3g' % (
             kinds, con['geom'][i].tolist(), con['dist'][i], float(cx.dist[j]), e_pos, e_nrm), bucket='contact-geometry')
       if e_frame > TOL_CONTACT:
-        status = 'deviation:tangent-frame'
+        hard = 'deviation:tangent-frame'
     else:
       worst.add('contact.geom.' + kinds, geo)
       if geo > TOL_CONTACT or e_frame > TOL_CONTACT:
-        status = 'deviation:geometry:' + kinds
+        hard = 'deviation:geometry:' + kinds
     worst.add('contact.param', e_par)
     if e_par > TOL_CONTACT:
       raise Violation('contact %s geoms %s: parameters differ (friction/solref/solimp/includemargin/dim) err %.3g: '
@@ -239,7 +247,7 @@ def compare_contacts(tm, td, dxi, pairs, worst):
                           kinds, con['geom'][i].tolist(), e_par, con['friction'][i].tolist(),
                           np.asarray(cx.friction[j]).tolist(), con['solref'][i].tolist(),
                           np.asarray(cx.solref[j]).tolist(), int(con['dim'][i]), int(cx.dim[j])), bucket='contact-param')
-  return status
+  return hard or status
 
 
 def compare_efc(lib, tm, td, dxi, worst, tol=None):
@@ -363,7 +371,7 @@ def compare_state(ck, lib, c, s, tf, ts, dxf, dxs, worst, info):
   sens((1, 2), TOL_SENS, 'posvel')
   # capsule-capsule contacts carry the ~1e-6 error of MJX's regularised closest-point computation (F18): constraints,
   # solver and step are still compared, with the loose tolerance TOL_LOOSE instead of the calibrated ones
-  loose = status == 'deviation:capsule-capsule-eps'
+  loose = status == 'deviation:capsule-capsule-eps'      # also used for sphere-capsule
   if status != 'ok' and not loose:
     return dict(status=status, ncon=ncon)
   t_efc, t_solve, t_step, tag = (TOL_LOOSE, TOL_LOOSE, TOL_LOOSE, '(loose)') if loose else (TOL_EFC, TOL_SOLVE, TOL_STEP, '')
@@ -504,7 +512,11 @@ class Runner:
       for k in range(tm.nsensor):
         if int(tm.sensor_type[k]) == lib.enums.mjSENS_ACTUATORVEL:
           sens_mask[int(tm.sensor_adr[k]):int(tm.sensor_adr[k]) + int(tm.sensor_dim[k])] = False
-    info = dict(skip_step=skip_step, implicitfast=implicitfast, nefc_slots=int(c.dx0._impl.nefc), dsbl_actuation=dsbl_act,
+    par = np.asarray(tm.body_parentid)
+    ndof = np.asarray(tm.body_dofnum).astype(int).copy()
+    for b in range(1, tm.nbody):
+      ndof[b] += ndof[par[b]]
+    info = dict(body_dofless=(ndof == 0), skip_step=skip_step, implicitfast=implicitfast, nefc_slots=int(c.dx0._impl.nefc), dsbl_actuation=dsbl_act,
                 sens_mask=sens_mask,
                 full_m=lambda dxi: full_m_mjx(mjx, c.mx, dxi),
                 sens_stage=np.repeat(np.asarray(tm.sensor_needstage), np.asarray(tm.sensor_dim)) if tm.nsensor else np.zeros(0))
